@@ -135,7 +135,7 @@ PROPS = {
         'text': 'With the assumed contract of write_all, every call site in finalize_* is proved to be reached only while no write has failed, the accepted bytes are proved to be an extension of the previous ones at every exit, '
                 'a failed sink implies an error result, and a second finish is proved to write nothing.',
         'note': SINK,
-        'kani': [], 'assumptions': [SINK],
+        'kani': ['kb_write_counted_retries'], 'assumptions': [SINK],
     },
     'C14': {
         'title': 'Re-framing (Annex B to length-prefixed NALs, ADTS to raw AAC) is exact',
